@@ -66,6 +66,30 @@ class Pool:
             uid = rng.choice(list(uids))
             tid = rng.choice([0, 1, 255, 256, 65535, rng.randint(0, 65535)]) if kind == "tcp" else 0
             items.append({"id": "f%d" % i, "kind": kind, "tid": tid, "pid": 0, "uid": uid, "pdu": pdu})
+        # frames whose checksum has a zero byte: LRC 00 on ASCII, a CRC with a 00 low or high byte on RTU / binary (found by search)
+        extra = []
+        for kind in kinds:
+            if kind not in ("ascii", "rtu", "bin"):
+                continue
+            for d in ("req", "rsp"):
+                found = 0
+                for tries in range(3000):
+                    a, v = rng.randint(0, 200), rng.randint(0, 65535)
+                    pdu = [6, a >> 8, a & 255, v >> 8, v & 255]
+                    body = bytes([1] + pdu)
+                    if kind == "ascii":
+                        ok = (sum(body) & 0xFF) == 0
+                    else:
+                        c = F._crc16(body)
+                        ok = (c[0] == 0 or c[1] == 0) and 0x7B not in body + c and 0x7D not in body + c
+                    if ok:
+                        extra.append((kind, d, {"t": "WriteRegReq" if d == "req" else "WriteRegRsp", "addr": a, "val": v}, pdu))
+                        found += 1
+                        if found >= 2:
+                            break
+        for j, (kind, d, m, pdu) in enumerate(extra):
+            items.append({"id": "z%d" % j, "kind": kind, "tid": 0, "pid": 0, "uid": 1, "pdu": pdu})
+            msgs.append((kind, d, m))
         built = F.tlc_build(items)
         for it, (kind, d, m) in zip(items, msgs):
             fr = dict(it, bytes=built[it["id"]], dir=d, m=m)
@@ -124,13 +148,14 @@ def cut_sets(n, rng, tier, short):
 def gen_c06(tier, rng):
     traces = []
     kinds = ["tcp", "rtu", "ascii", "bin"]
-    pool = Pool(rng, kinds, 12 if tier == "quick" else 60, small=True)
+    # (one frame in five is for a unit the receiver does not serve: it is skipped, and what follows it in the same read is still delivered)
+    pool = Pool(rng, kinds, 12 if tier == "quick" else 60, small=True, uids=(1, 1, 1, 1, 9))
     k = 0
     short = 11 if tier == "quick" else 14
     for kind in kinds:
         for d in ("req", "rsp"):
             # shortest frames: every chunking
-            fr = sorted(pool.frames[(kind, d)], key=lambda f: len(f["bytes"]))
+            fr = sorted([f for f in pool.frames[(kind, d)] if f["uid"] == 1], key=lambda f: len(f["bytes"]))
             for f in fr[:2]:
                 data, sent = mk_stream([f])
                 for cuts in cut_sets(len(data), rng, tier, short if kind != "ascii" else short):
@@ -140,8 +165,8 @@ def gen_c06(tier, rng):
             for _ in range(nstreams):
                 nf = rng.choice([1, 2, 2, 3])
                 frames = [pool.pick(kind, d) for _ in range(nf)]
-                data, sent = mk_stream(frames)
                 single = rng.random() < 0.3
+                data, sent = mk_stream(frames, units=range(256) if single else (1,))     # (`single`: every unit id is served)
                 sets = list(cut_sets(len(data), rng, tier, 0))
                 if len(sets) > (40 if tier == "quick" else 300):
                     sets = sets[:2] + rng.sample(sets[2:], (38 if tier == "quick" else 298))
@@ -265,12 +290,21 @@ def gen_c07(tier, rng):
                                 traces.append(run_stream("x%d" % k, "c07", kind, d, data, sent, (), [1], False))
                                 k += 1
             for f in chosen:
+                # directed: every structured damage of the checksum field behind line noise longer than the frame
+                for bad in checksum_faults(f):
+                    noise = bytes(rng.choice([x for x in range(256) if x not in (0x7B, 0x7D, 0x3A, 0x0D, 0x0A)]) for _ in range(len(bad) + 7))
+                    data, sent = mk_stream([dict(f, bytes=bad, valid=False), pool.pick(kind, d, 40)], prefix=noise)
+                    traces.append(run_stream("x%d" % k, "c07", kind, d, data, sent, (), [1], False))
+                    k += 1
                 for bad in faults_of(f, rng, tier):
-                    ctx = rng.choice(["alone", "before", "after", "both"])
+                    ctx = rng.choice(["alone", "before", "after", "both", "noise", "noise"])
                     pre = [pool.pick(kind, d, 40)] if ctx in ("before", "both") else []
                     post = [pool.pick(kind, d, 40)] if ctx in ("after", "both") else []
                     fb = dict(f, bytes=bad, valid=False)
-                    data, sent = mk_stream(pre + [fb] + post)
+                    # "noise": line noise in front of the damaged frame (shorter and longer than the frame, no delimiter characters)
+                    noise = bytes(rng.choice([x for x in range(256) if x not in (0x7B, 0x7D, 0x3A, 0x0D, 0x0A)])
+                                  for _ in range(rng.choice([1, 3, len(bad), len(bad) + 5, 40]))) if ctx == "noise" else b""
+                    data, sent = mk_stream(pre + [fb] + post, prefix=noise)
                     n = len(data)
                     cuts = rng.choice([(), (), tuple(sorted(rng.randint(1, n - 1) for _ in range(rng.choice([1, 2])))) if n > 1 else ()])
                     traces.append(run_stream("x%d" % k, "c07", kind, d, data, sent, cuts, [1], rng.random() < 0.3))
